@@ -11,7 +11,7 @@ import (
 var rules = map[string]string{
 	"C11": "Each case is one simulated run drawn from mix(VERIF_SEED,i), of three kinds. A: 2-8 client tasks, each 1-3 pipelines parse -> 0-6 operations (print, print inside PHP state, dump x4 option sets, traverse with a recording visitor, traverse with visitor.Null, resolve names); B: the same pipelines pushed through a model of the CLI topology (producer, K parser workers, one consumer, bounded queues) so that trees cross tasks; C: the real cmd/php-parser program (its main, worker goroutines, channels, WaitGroup, flags) over 1-12 real files in a scratch directory. Inputs are composed from the corpus (mixed, all from one feature class, a family of variants of one file, a crowd of 12-40 tiny malformed files under one grammar, or a storm of faulted operations on deeply nested files), with versions 5.0-7.4 or nil, callback on/off, shared or private version pointer, block-size knob, forced-GC steps; in 30% of A/B runs a quarter of the operations are cut short by a writer fault or visitor abort; in 30% of A/B runs some callers keep one statement and drop the root; in 20% of A/B runs some operations are applied to a statement or to an inner vertex of the tree (by pre-order number); in 15% of C runs an I/O error (read error, write error, torn write) strikes one of the program's files and the relaxed oracle of DESIGN.md section 13 applies. A seeded scheduler (run-to-completion / random preemption / PCT / site-biased) decides every task switch at instrumented yield points. Every run is followed by the same work alone in the same process and, if nothing was wrong, by all its pipelines in reverse order in one fresh process and by up to 6 of its pipelines (files) each alone in a fresh process. Non-trivial: >=2 pipelines (files) and >=1 preemptive switch to another task inside the code under test. Distinct: distinct (scenario hash, event-log hash) pairs among the non-trivial runs.",
 	"C13": "Each case is one simulated run: one corpus-composed input, a reference table (every operation kind - print, print inside PHP state, dump x4 option sets, traverse with a recording visitor, traverse with visitor.Null, resolve - on its own freshly parsed tree, computed twice) and a drawn history of 1-24 such operations on ONE tree (in a third of the runs some of them applied to a single statement or to an inner vertex of the tree - an expression, a name, a class member, chosen by pre-order number - with their own reference entries); odd seeds additionally inject writer faults (error, sticky error, short write, panic at a drawn Write call), visitor aborts and forced GC, a fifth of them as scans that cut one operation kind short at consecutive positions. After every operation: output equals the table (a faulted operation: accepted bytes are a prefix), fingerprint of the tree's exported fields and of the source buffer unchanged. One table entry per run is recomputed alone in a fresh process. Non-trivial: >=2 operations executed and at least one operation follows an operation of a different kind. Distinct: distinct (scenario hash, event-log hash) pairs among the non-trivial runs.",
-	"C18": "Each case is one simulated run, of two kinds. pools: 1-4 tasks each owning 1-3 token/position pools with a drawn block size (1-64 dense, and 100..4096), executing drawn get/write/verify/gc/renew operations (renew: the pool is dropped, its objects kept, a new pool of the same size takes its place; 5% long runs: one task, block sizes at 15/16/17-bit limits with a request count beyond the block, or ~140,000 requests at a small size) against a reference model of every object ever returned (non-nil, never returned twice by any pool of the run, a stamp written through one object never changes another), tasks interleaved at yield points inside Pool.Get and NewPool; the race detector blinded to hand-overs reports memory shared between two tasks' pools. parse: 1-3 tasks parse corpus inputs with DefaultBlockSize set to a drawn value (1..1025), compared with the same parse at the compiled-in size. Non-trivial: at least one block boundary was crossed. Distinct: distinct (scenario hash, event-log hash) pairs among the non-trivial runs.",
+	"C18": "Each case is one simulated run, of two kinds. pools: 1-4 tasks each owning 1-3 token/position pools with a drawn block size (1-64 dense, and 100..4096), executing drawn get/rr/write/verify/gc/renew operations (rr: one object from every pool of the task in turn, as the lexer uses its pools; some tasks own three or four pools of one type; in 15% of the tasks the operations are executed by two goroutines taking turns under a mutex, so that pools are created by one goroutine and used by another; renew: the pool is dropped, its objects kept, a new pool of the same size takes its place; 5% long runs: one task, block sizes at 15/16/17-bit limits with a request count beyond the block, or ~140,000 requests at a small size; rarely very long runs: more than a million requests from one pool, or a block size of 200,001 ... 2^20+1 with a request count beyond it) against a reference model of every object ever returned (non-nil, never returned twice by any pool of the run, a stamp written through one object never changes another), tasks interleaved at yield points inside Pool.Get and NewPool; the race detector blinded to hand-overs reports memory shared between two tasks' pools. parse: 1-3 tasks parse corpus inputs with DefaultBlockSize set to a drawn value (1..1025), compared with the same parse at the compiled-in size. Non-trivial: at least one block boundary was crossed. Distinct: distinct (scenario hash, event-log hash) pairs among the non-trivial runs.",
 }
 
 func sortedInts(m map[int]bool) []int {
